@@ -48,9 +48,11 @@ def _driver_ops(driver, levels):
     return [{"op": "resolve_all"}]
 
 
-def _attempt(rng, ctor, driver, levels, perm, fault, item_idx):
+def _attempt(rng, ctor, driver, levels, perm, fault, item_idx, union_ok=False):
     """One construct + drive sequence; a faulty attempt is cut at the fault."""
     ops = [{"op": "construct", "ctor": ctor, "perm": perm, "item": item_idx}] + _driver_ops(driver, levels)
+    if ctor == "dicts" and union_ok and rng.random() < 0.25:
+        ops[0]["union"] = True
     if fault is None:
         return ops + [{"op": "drop"}]
     if fault == "abort":
@@ -131,6 +133,8 @@ def generate(run_seed, prop, tier="quick"):
     for idx, item in enumerate(items):
         levels = item["n_levels"]
         lib = lib_of_item.get(idx)
+        all_names = [n for block in item["blocks"] for n in block_names(block)]
+        union_ok = levels >= 2 and len(all_names) == len(set(all_names))
         n_res = rng.randint(2, 4) if n_items == 1 else rng.randint(1, 3)
         drivers = list(DRIVERS)
         rng.shuffle(drivers)
@@ -150,14 +154,14 @@ def generate(run_seed, prop, tier="quick"):
             elif faults_enabled["scribble"] and roll < 0.54:
                 fault = "scribble"
             if fault:
-                script += _attempt(rng, ctor, driver, levels, perm, fault, idx)
+                script += _attempt(rng, ctor, driver, levels, perm, fault, idx, union_ok)
                 if rng.random() < 0.3:
                     ctor = rng.choice(CTORS)
-            script += _attempt(rng, ctor, driver, levels, perm, None, idx)
+            script += _attempt(rng, ctor, driver, levels, perm, None, idx, union_ok)
             if rng.random() < 0.25:
                 # a second clean pass over the same library by the same client
-                script += _attempt(rng, rng.choice(CTORS), rng.choice(DRIVERS), levels, rng.random() < 0.35, None, idx)
-            uses_lib = lib if any(o.get("ctor") == "dicts" for o in script) else None
+                script += _attempt(rng, rng.choice(CTORS), rng.choice(DRIVERS), levels, rng.random() < 0.35, None, idx, union_ok)
+            uses_lib = lib if any(o.get("ctor") == "dicts" and not o.get("union") for o in script) else None
             add_client("resolver", idx, script, lib=uses_lib)
         # co-tenants on the shared library
         if lib is not None:
@@ -385,6 +389,7 @@ class _Run:
             legacy = item.get("legacy", True)
             st["item"] = item
             st["level"] = 0
+            st["returned"] = []
             st["prev"] = None
             st["iter"] = None
             st["last"] = None
@@ -397,6 +402,13 @@ class _Run:
                 # so a reused (already annotated, possibly scribbled) object is not "the same input"
                 base_graph = read_cgsmiles(item["base"])
                 st["res"] = MoleculeResolver.from_graph(".".join(blocks), base_graph, last_all_atom=laa, legacy=legacy)
+            elif ctor == "dicts" and op.get("union"):
+                # one dict holding the fragments of every level, handed in once per level
+                own = MoleculeResolver.read_fragment_strings(list(blocks), last_all_atom=laa)
+                union = {}
+                for level_dict in own:
+                    union.update(level_dict)
+                st["res"] = MoleculeResolver.from_fragment_dicts(item["base"], [union] * len(own), last_all_atom=laa, legacy=legacy)
             elif ctor == "dicts":
                 lib = self.libs.get(client.get("lib"))
                 if lib is None:
@@ -439,6 +451,15 @@ class _Run:
                 self.bump("valence_graphs")
             for oracle, detail in found:
                 self.violate(oracle, detail, event["seq"])
+            # graphs handed out at earlier steps are inspected again after every later step (list(resolve_iter())
+            # is ordinary use): the membership they recorded must still be what it was when they were returned
+            for old_level, old_coarse, old_snap in st.get("returned", []):
+                now = monitors.membership_snapshot(old_coarse)
+                if now != old_snap:
+                    self.violate("C06.mapping", "the coarse graph returned at step %d changed its fragment membership after step %d "
+                                 "(members or their names differ from what was returned)" % (old_level, level), event["seq"])
+                    break
+            st.setdefault("returned", []).append((level, coarse, monitors.membership_snapshot(coarse)))
             st["prev"] = monitors.summary(fine)
             event["io"] = sha(jdump(iteration_order(fine)))
             if st.get("passed_lib") is not None:
